@@ -198,6 +198,22 @@ Theorem C12_spawn_no_descriptor_left :
 Proof. exact spawn_no_leak. Qed.
 Print Assumptions C12_spawn_no_descriptor_left.
 
+(* ---- uv_kill / uv_process_kill -------------------------------------------- *)
+
+(* uv_kill(pid, sig) is kill(2) with the same arguments for every pid -
+   positive, zero or negative (process group, the way to signal a detached
+   child and its group) - and every signal number; the result is 0 or
+   UV__ERR(errno).  uv_process_kill is uv_kill on the handle's pid.  (A
+   pass-through statement; its weight is in the correspondence, which wraps
+   kill(2) and compares call and result.) *)
+Theorem C12_uv_kill_passthrough :
+  forall pid sig a,
+  fst (uv_kill pid sig a) = (pid, sig) /\
+  snd (uv_kill pid sig a) = match a with KOk => 0%Z | KErr e => (- e)%Z end /\
+  uv_process_kill pid sig a = uv_kill pid sig a.
+Proof. exact uv_kill_passthrough. Qed.
+Print Assumptions C12_uv_kill_passthrough.
+
 (* ---- uv_disable_stdio_inheritance ----------------------------------------- *)
 
 (* core.c: for (fd = 0; ; fd++) if (uv__cloexec(fd, 1) && fd > 15) break;
